@@ -391,3 +391,144 @@ _run_before_r9 = run
 def run(ctx):
     _run_before_r9(ctx)
     r9_setoption_sections(ctx)
+
+
+def r10_only_the_token_reader_ends_the_go_loop(ctx):
+    """`go depth` (a keyword whose value is missing) is an error, not an unlimited go"""
+    rid = "C15.R10"
+    ctx.rule(rid, "parse_go leaves its loop successfully only when the token reader itself reports the end of the command: the UnexpectedEndOfCommand that is turned into `done` is the error of CommandParser::next(), not the error of anything that also reads a parameter's value", floor=1)
+    prog = ctx.prog
+    f = ctx.fn(rid, P + "parse_go", positional=False)
+    cfg, ex = Cfg(f), Exprs(f)
+    adt = prog.adts.get("inkayaku_uci::uci::parser::ParserError")
+    names = [v.get("name") for v in adt["variants"]] if adt else []
+    if "UnexpectedEndOfCommand" not in names:
+        ctx.lost(rid, "ParserError::UnexpectedEndOfCommand")
+        return
+    eoc = names.index("UnexpectedEndOfCommand")
+    READERS = ("next", "parse_u64", "parse_duration", "parse_moves_until_one_of_or_end", "until_one_of_or_end", "until_end", "until_token_or_end", "consume")
+
+    def reads_tokens(key, seen=None):
+        # the function / closure (transitively, through workspace functions) pulls tokens
+        seen = seen if seen is not None else set()
+        if key in seen:
+            return False
+        seen.add(key)
+        g = prog.fns.get(key) or getattr(prog, "helper_bodies", {}).get(key)
+        if g is None:
+            return False
+        for bb in g["blocks"]:
+            t = bb["term"]
+            if t["k"] == "call":
+                ck = t["callee"].get("key") or ""
+                if ck.startswith(P) and ck[len(P):] in READERS:
+                    return True
+                if ck.startswith("inkayaku_") and reads_tokens(ck, seen):
+                    return True
+            for st in bb["stmts"]:
+                rv = st["rv"]
+                if rv.get("op") == "agg" and rv.get("kind") == "closure" and reads_tokens(rv.get("closure") or rv.get("def") or "", seen):
+                    return True
+        return False
+
+    found = 0
+    for b in sorted(cfg.reach):
+        t = f["blocks"][b]["term"]
+        if t["k"] != "switch" or f["blocks"][b]["cleanup"]:
+            continue
+        d = ex.operand(t["discr"])
+        if not (d[0] == "discr" and d[1][0] == "f" and d[1][1][0] == "dc" and d[1][1][2] == "Err"):
+            continue
+        if not any(v == eoc for v, _ in t["targets"]):
+            continue
+        x = d[1][1][1]
+        while x[0] in ("&", "*"):
+            x = x[1]
+        found += 1
+        if x[0] == "call" and x[1] == P + "next":
+            ctx.ob(rid, "end-of-command|from-next", True, "", ctx.where(f, t["line"]), sample={"scrutinee": show(x)[:100]})
+            continue
+        # a combinator / helper around next(): does what it runs read a value?
+        inner = [y for y in leaves(x) if y is not x]
+        keys = [y[1] for y in inner if y[0] == "call"] + [y[2] for y in inner if y[0] == "agg" and y[1] == "closure"] + ([x[1]] if x[0] == "call" and x[1].startswith("inkayaku_") else [])
+        readers = [k for k in keys if (k.startswith(P) and k[len(P):] in READERS and k != P + "next") or reads_tokens(k)]
+        if x[0] == "call" and readers:
+            ctx.ob(rid, "end-of-command|from-next", False,
+                   "parse_go ends its loop successfully on UnexpectedEndOfCommand of %s, which also covers %s: a keyword whose value is missing at the end of the line (`go depth`) is accepted and the parameter silently dropped (an unlimited search instead of an error)" % (
+                       show(x)[:100], ", ".join(sorted({k.rsplit("::", 2)[-1] if "{closure" not in k else k.rsplit("::", 2)[-2] + "::" + k.rsplit("::", 1)[-1] for k in readers}))),
+                   ctx.where(f, t["line"]))
+        else:
+            ctx.lost(rid, "where the UnexpectedEndOfCommand that ends parse_go's loop comes from (%s)" % show(x)[:80])
+    if not found:
+        ctx.lost(rid, "the test for UnexpectedEndOfCommand that ends parse_go's loop")
+
+
+_run_before_r10 = run
+
+
+def run(ctx):
+    _run_before_r10(ctx)
+    r10_only_the_token_reader_ends_the_go_loop(ctx)
+
+
+def r11_binary_search_over_sorted_tables(ctx):
+    """a keyword looked up with binary_search is found only if the table is sorted"""
+    rid = "C15.R11"
+    ctx.rule(rid, "every constant table the parser searches with binary_search is sorted ascending in the order binary_search compares (byte order of the strings): an out-of-order neighbour pair makes a keyword unfindable, and a token list that should stop at it swallows it", floor=0)
+    from ..expr import resolve_promoted
+    prog = ctx.prog
+
+    def const_list(t):
+        t = resolve_promoted(prog, t)
+        while t[0] in ("&", "*", "cast"):
+            t = t[1] if t[0] != "cast" else t[2]
+        if t[0] == "c" and isinstance(t[1], (tuple, list)):
+            return list(t[1]), (t[3] or "?")
+        return None, None
+    for k, f in sorted(prog.fns.items()):
+        if not k.startswith("inkayaku_uci::") or f.get("test"):
+            continue
+        ex = None
+        for bb in f["blocks"]:
+            t = bb["term"]
+            if t["k"] != "call" or bb["cleanup"] or "binary_search" not in (t["callee"].get("key") or ""):
+                continue
+            if not (t["callee"]["key"].startswith("core::slice::") or "Vec" in t["callee"]["key"]):
+                continue
+            ex = ex or Exprs(f)
+            recv = ex.operand(t["args"][0])
+            tables = []
+            base = recv
+            while base[0] in ("&", "*", "cast"):
+                base = base[1] if base[0] != "cast" else base[2]
+            if base[0] == "param":
+                # the table is an argument: look at what the callers pass
+                for ck, g in prog.fns.items():
+                    gx = None
+                    for b2 in g["blocks"]:
+                        t2 = b2["term"]
+                        if t2["k"] == "call" and t2["callee"].get("key") == k and len(t2["args"]) >= base[1]:
+                            gx = gx or Exprs(g)
+                            tables.append(const_list(gx.operand(t2["args"][base[1] - 1])))
+            else:
+                tables.append(const_list(recv))
+            if not tables:
+                ctx.lost(rid, "the table %s searches with binary_search" % f["display"])
+            for vals, name in tables:
+                if vals is None or not all(isinstance(v, (str, int)) for v in vals):
+                    ctx.lost(rid, "the table %s searches with binary_search (not a constant list)" % f["display"])
+                    continue
+                keyed = [v.encode() if isinstance(v, str) else v for v in vals]
+                bad = [(vals[i], vals[i + 1]) for i in range(len(vals) - 1) if not keyed[i] < keyed[i + 1]]
+                ctx.ob(rid, "%s|%s|sorted" % (k.rsplit("::", 1)[-1], name.rsplit("::", 1)[-1]), not bad,
+                       "" if not bad else "%s looks tokens up in %s with binary_search, but the table is not sorted: %r stands before %r - the search can miss entries (%r is never found), so a token list that should end at that keyword reads it as a move / the keyword is rejected" % (
+                           f["display"], name.rsplit("::", 1)[-1], bad[0][0], bad[0][1], bad[0][1]),
+                       ctx.where(f, t["line"]), sample={"table": name, "entries": len(vals)})
+
+
+_run_before_r11 = run
+
+
+def run(ctx):
+    _run_before_r11(ctx)
+    r11_binary_search_over_sorted_tables(ctx)
